@@ -278,10 +278,12 @@ class Play:
     def _obs(self, fn):
         try:
             return ("ok", fn())
-        except (Boom, TransitionNotAllowed, InvalidDefinition) as e:
-            return ("exc", e)
         except RecursionError:
             raise Fail("skip", "recursion limit")
+        except HarnessError:
+            raise
+        except Exception as e:  # whatever escapes the library is an observation (compared with the expected outcome)
+            return ("exc", e)
 
     async def call(self, fn):
         if self.driver == "loop":
@@ -290,12 +292,14 @@ class Play:
                 if isawaitable(r):
                     r = await r
                 return ("ok", r)
-            except (Boom, TransitionNotAllowed, InvalidDefinition) as e:
+            except RecursionError:
+                raise Fail("skip", "recursion limit")
+            except HarnessError:
+                raise
+            except Exception as e:
                 for _ in range(4):  # let sibling coroutines of a failed group finish (their records are discounted)
                     await asyncio.sleep(0)
                 return ("exc", e)
-            except RecursionError:
-                raise Fail("skip", "recursion limit")
         if self.driver == "threads":
             box = {}
             t = threading.Thread(target=lambda: box.update(obs=self._obs(fn)))
